@@ -105,6 +105,8 @@ PAIRS = {
              (LAM_M / 8, LAM_M / 8), (10.5, -10.5), (-10.5, 1.0),
              (1e3, -10.5), (10.5, 1e3)],
     "mini": [(1.0, -1.0), (LAM_M / 8, 10.5), (-10.5, 1e3)],
+    "five": [(1.0, -1.0), (LAM_M / 8, 10.5), (-10.5, 1e3), (1.0, 1.0),
+             (-1.0, LAM_M / 8)],
 }
 COEFS = [(1.0, 1.0), (2.0, -3.0), (1 + 2j, -0.5j), (1e6, 1e-6)]
 LISTS = [[1, 2], [0, 1], [-1, 0, 1], [1.0], [0], [2, 1], [1, 0],
@@ -138,9 +140,9 @@ def _is_coarse(spacing):
 # --------------------------------------------------------------------------
 def cases(tier, seed):
     out = []
+    q = tier == "quick"
     small = _small(tier)
     shapes = [(s, "full") for s in small] + [(s, "sparse") for s in BIG[tier]]
-    sps = SP_TIER[tier]
     for s, mode in shapes:
         n = s[0] * s[1] if mode == "full" else 60
         out.append({"id": "fftinv:shape=%s" % _sid(s), "kind": "fftinv",
@@ -150,42 +152,66 @@ def cases(tier, seed):
         out.append({"id": "fftinv-noshift:layout=%s" % lay,
                     "kind": "noshift", "layout": lay, "tier": tier,
                     "_cost": 10 * len(shapes)})
+    # ---- group: default vector (coarse) gets the large pair sets, the
+    # spacing deviations smaller ones
     for s, mode in shapes:
-        n = s[0] * s[1] if mode == "full" else 11
+        sps = SP_TIER[tier] if mode == "full" else SP_TIER[tier][:2]
         for i, sp in enumerate(sps):
             default = (i == 0)
+            m = mode
+            if default:
+                bp = "five" if q else "core"
+                pp = [["all", 1], ["core", 2]] if q else \
+                    [["all", 2], ["core", 4]]
+            else:
+                bp = "mini"
+                pp = [["core", 2]] if q else [["core", 4]]
+                if sp == "edge":
+                    m = "sparse"
+            n = s[0] * s[1] if m == "full" else 11
+            nb = {"core": 20, "five": 13, "mini": 8}[bp]
             c = {"id": "group:shape=%s:sp=%s" % (_sid(s), sp),
-                 "kind": "group", "shape": list(s), "mode": mode, "sp": sp,
-                 "tier": tier,
-                 "bpairs": "core" if default else "mini",
-                 "ppairs": "all" if default else "core",
-                 "nprobe": 4 if (tier == "thorough" or not default) else 2}
-            c["_cost"] = (n * (20 if default else 11) +
-                          c["nprobe"] * (61 if default else 20))
+                 "kind": "group", "shape": list(s), "mode": m, "sp": sp,
+                 "tier": tier, "bpairs": bp, "ppairs": pp}
+            c["_cost"] = n * (nb + 0.5) + sum(
+                (61 if nm == "all" else 20) * k for nm, k in pp)
             out.append(c)
-    lin_sps = ["coarse"] if tier == "quick" else ["coarse", "fine"]
+    # ---- linear
     for s, mode in shapes:
-        n = s[0] * s[1] if mode == "full" else 11
-        for i, sp in enumerate(lin_sps):
-            ds = [1.0, -10.5] if (tier == "thorough" and i == 0) else [1.0]
-            ncoef = len(COEFS) if i == 0 else 2
-            if tier == "quick":
-                ncoef = 3
+        for i, sp in enumerate(["coarse"] if q else ["coarse", "fine"]):
+            m = mode if i == 0 else "sparse"
+            n = s[0] * s[1] if m == "full" else 11
+            ds = [1.0, -10.5] if (not q and i == 0) else [1.0]
+            ncoef = 3 if q else (len(COEFS) if i == 0 else 2)
             out.append({"id": "linear:shape=%s:sp=%s" % (_sid(s), sp),
-                        "kind": "linear", "shape": list(s), "mode": mode,
+                        "kind": "linear", "shape": list(s), "mode": m,
                         "sp": sp, "tier": tier, "ds": ds, "ncoef": ncoef,
                         "_cost": n * (2 + 2 * ncoef) + n * 4 * (len(ds) - 1)})
+    # ---- lists: default (coarse, cfsp 0, filter off) + one deviation
+    if q:
+        blocks = [["coarse", 0, False, 3, True], ["coarse", 3, LAM_M, 2, False],
+                  ["fine", 0, False, 2, False]]
+    else:
+        blocks = [["coarse", 0, False, 3, True], ["coarse", 3, LAM_M, 3, False],
+                  ["coarse", 3, False, 3, False], ["coarse", 0, LAM_M, 3, False],
+                  ["coarse", 1, False, 3, False], ["fine", 0, False, 2, False],
+                  ["fine", 3, LAM_M, 2, False], ["edge", 0, False, 2, False],
+                  ["aniso", 0, False, 2, False]]
     for s, mode in shapes:
         out.append({"id": "list:shape=%s" % _sid(s), "kind": "list",
                     "shape": list(s), "mode": mode, "tier": tier,
-                    "_cost": 250 if tier == "quick" else 700})
-    opt_sps = ["coarse"] if tier == "quick" else ["coarse", "fine"]
+                    "blocks": blocks,
+                    "_cost": sum(17 * b[3] for b in blocks) + 18})
+    # ---- options
     for s, mode in shapes:
-        n = s[0] * s[1] if mode == "full" else 11
-        for sp in opt_sps:
+        for i, sp in enumerate(["coarse"] if q else ["coarse", "fine"]):
+            m = mode if i == 0 else "sparse"
+            n = s[0] * s[1] if m == "full" else 11
+            fullc = [0, 2, 3, 5] if q else [0, 1, 2, 3, 4, 5]
             out.append({"id": "opts:shape=%s:sp=%s" % (_sid(s), sp),
-                        "kind": "opts", "shape": list(s), "mode": mode,
-                        "sp": sp, "tier": tier, "_cost": 9 * n + 120})
+                        "kind": "opts", "shape": list(s), "mode": m,
+                        "sp": sp, "tier": tier, "full_combos": fullc,
+                        "_cost": (len(fullc) + 1) * n + 120})
     return _balance(out)
 
 
@@ -290,6 +316,7 @@ class Ctx:
         self._img = {}
         self.fp0 = {}
         self.raw = {}
+        self.done = set()
         self.acc = []
         self.info = {"skipped_zero_sum_not_coarse": 0, "refused": 0,
                      "list_order_differs": 0, "list_calls": 0,
@@ -657,6 +684,10 @@ def _compose(cx, name, d1, d2, cfsp=0):
     """P(d2) applied to the real result of P(d1) vs P(d1+d2) (or the input
     itself when d1+d2 == 0 and the sampling is coarse)."""
     s = d1 + d2
+    key = (name, _dkey(d1), _dkey(d2), cfsp)
+    if key in cx.done:
+        return
+    cx.done.add(key)
     if s == 0 and not cx.coarse:
         cx.info["skipped_zero_sum_not_coarse"] += 1
         return
@@ -680,7 +711,7 @@ def _compose(cx, name, d1, d2, cfsp=0):
 def _run_group(case, ck):
     cx = Ctx(ck, case["shape"], case["sp"])
     basis = cx.basis(case["mode"])
-    probes = cx.probes(case["nprobe"])
+    probes = cx.probes(max(k for _, k in case["ppairs"]))
     # --- distance zero, every spelling -----------------------------------
     for nm in basis + [p for p in probes if p not in basis]:
         a = cx.image(nm)
@@ -696,12 +727,10 @@ def _run_group(case, ck):
     for d1, d2 in bp:
         for nm in basis:
             _compose(cx, nm, d1, d2)
-    done = set(bp)
-    for d1, d2 in PAIRS[case["ppairs"]]:
-        for nm in probes:
-            if (d1, d2) in done and nm in basis:
-                continue
-            _compose(cx, nm, d1, d2)
+    for pname, k in case["ppairs"]:
+        for d1, d2 in PAIRS[pname]:
+            for nm in probes[:k]:
+                _compose(cx, nm, d1, d2)
     # --- basis matrices: operator norm, superposition --------------------
     if case["mode"] == "full":
         ds = []
@@ -774,30 +803,27 @@ def _run_linear(case, ck):
 
 
 def _run_list(case, ck):
-    tier = case["tier"]
-    combos = [(0, False), (3, LAM_M)]
-    if tier == "thorough":
-        combos += [(3, False), (0, LAM_M), (1, False)]
     acc = []
-    info = None
-    for sp in SP_TIER[tier]:
-        cx = Ctx(ck, case["shape"], sp)
-        probes = cx.probes(4 if tier == "thorough" else 3)
-        for ci, (cfsp, gf) in enumerate(combos):
-            for li, L in enumerate(LISTS):
-                forms = [("list", list(L))]
-                if li < 3 and ci == 0:
-                    forms += [("tuple", tuple(L)), ("ndarray", np.array(L))]
-                for nm in probes:
-                    for fname, arg in forms:
-                        _one_list(cx, nm, L, fname, arg, cfsp, gf)
-        for nm in probes:
+    info = {}
+    ctxs = {}
+    for sp, cfsp, gf, nprobe, forms_on in case["blocks"]:
+        if sp not in ctxs:
+            ctxs[sp] = Ctx(ck, case["shape"], sp)
+        cx = ctxs[sp]
+        probes = cx.probes(nprobe)
+        for li, L in enumerate(LISTS):
+            forms = [("list", list(L))]
+            if li < 3 and forms_on:
+                forms += [("tuple", tuple(L)), ("ndarray", np.array(L))]
+            for nm in probes:
+                for fname, arg in forms:
+                    _one_list(cx, nm, L, fname, arg, cfsp, gf)
+    for sp in sorted(ctxs):
+        cx = ctxs[sp]
+        for nm in cx.probes(2):
             acc.append(np.round(cx.planes(cx.P(nm, 1.0)).ravel()[:32], 9))
-        if info is None:
-            info = cx.info
-        else:
-            for k, v in cx.info.items():
-                info[k] += v
+        for k, v in cx.info.items():
+            info[k] = info.get(k, 0) + v
     return digest(*acc), info
 
 
@@ -849,10 +875,13 @@ def _run_opts(case, ck):
     dprobe = [-10.5, 1e3] if case["tier"] == "thorough" else [-10.5]
     work = [(nm, d0) for nm in names] + \
         [(nm, d) for d in dprobe for nm in probes]
-    for cfsp, gf in OPT_COMBOS:
-        for nm, d in work:
+    pwork = [(nm, d0) for nm in probes] + \
+        [(nm, d) for d in dprobe for nm in probes]
+    for ci, (cfsp, gf) in enumerate(OPT_COMBOS):
+        cfull = full and ci in case["full_combos"]
+        for nm, d in (work if (cfull or not full) else pwork):
             cx.P(nm, d, cfsp, gf)
-        if full:
+        if cfull:
             M = cx.matrix(basis, d0, cfsp, gf)
             if not gf:
                 cx.opnorm(M, d0, cfsp)
@@ -868,6 +897,8 @@ def _run_opts(case, ck):
         sc = float(np.abs(cx.values(nm)).max())
         # cascaded propagation is still propagation by d
         for cfsp in (1, 3):
+            if (nm, _dkey(d), cfsp, "off") not in cx.raw:
+                continue
             cx.cmp("cfsp-consistent", cx.Pv(nm, d, cfsp, False),
                    cx.Pv(nm, d, 0, False), sc, abs(d) / LAM_M,
                    "%s d=%r: cfsp=%r vs cfsp=0" % (cx.label(nm), d, cfsp))
